@@ -41,10 +41,15 @@ class NotEnabled(Exception):
     a conformance failure of the code."""
 
 
+class Stuck(Exception):
+    """A thread of the code under test did not reach a scheduling point: it blocks on something real (a dead-lock of the code)."""
+
+
 class _Abort(SystemExit):
     """Unwinds a parked thread at the end of a case (BaseException: `except Exception` of the code does not stop it)."""
 
 
+STEP_TIMEOUT = 20
 BASE = _dt.datetime(2031, 3, 4, 12, 0, 0)
 FAKE_PID0 = 5000000       # above every possible pid_max (4194304)
 
@@ -187,15 +192,17 @@ class World:
             self.now = max(self.now, g.at[1]["due"])
         g.wake = wake if wake is not None else value
         g.sem.release()
-        if not self.main_sem.acquire(timeout=60):
-            raise MachineryError("lock-step thread %s did not yield within 60 s (wall clock)" % g.name)
+        if not self.main_sem.acquire(timeout=STEP_TIMEOUT):
+            g.stuck = True
+            self.main_sem = threading.Semaphore(0)      # whatever that thread does later must not disturb the next case
+            raise Stuck("thread %s (%s) did not reach a scheduling point within %d s after %s %s" % (g.name, g.role, STEP_TIMEOUT, g.at[0], g.at[1]))
         return g.at
 
     def stop_all(self):
         """Unwind every thread that is still parked."""
         self.abort = True
         for g in list(self.threads):
-            if g.status != "done":
+            if g.status != "done" and not getattr(g, "stuck", False):
                 g.sem.release()
                 if not self.main_sem.acquire(timeout=60):
                     raise MachineryError("could not stop lock-step thread %s" % g.name)
@@ -298,6 +305,37 @@ class ShimThread:
         if self.gated is None or self.gated.status == "done":
             return
         W.block("join", lambda: self.gated.status == "done", thread=self.name)
+
+
+class ShimLock:
+    """threading.Lock for gated threads: a thread that wants the lock while another one holds it parks (scheduling point)."""
+
+    def __init__(self):
+        self.owner = None
+
+    def acquire(self, blocking=True, timeout=-1):
+        me = W.current() or "driver"
+        if self.owner is not None:
+            if not blocking:
+                return False
+            if me == "driver":
+                raise HarnessDrift("the driver would block on a lock held by %s" % getattr(self.owner, "name", self.owner))
+            W.block("lock", lambda: self.owner is None, what="lock")
+        self.owner = me
+        return True
+
+    def release(self):
+        if self.owner is None:
+            raise RuntimeError("release unlocked lock")
+        self.owner = None
+
+    def locked(self):
+        return self.owner is not None
+
+    __enter__ = acquire
+
+    def __exit__(self, *a):
+        self.release()
 
 
 class ShimCondition:
@@ -604,6 +642,8 @@ class TaskDriver:
             return "done"
         if g.status == "blocked" and g.at[0] == "evwait":
             return "evwait"
+        if g.status == "blocked":
+            return "blocked in %s" % g.at[0]
         if g.at[0] == "eventer":
             return "chk"
         return "new"
@@ -766,6 +806,9 @@ class TaskDriver:
             else:
                 K.disp_next = arg
                 self.task = self.lt.LocalTask("run-me --fast", shell=True)
+                if self.task._waitpid_lock.locked():
+                    raise HarnessDrift("Popen._waitpid_lock is taken right after the constructor")
+                self.task._waitpid_lock = ShimLock()       # blocking on it is a scheduling point (the waiter thread has not run yet)
                 self.waiter = W.threads[-1] if W.threads else None
                 if self.waiter is None or self.waiter.role != "waiter":
                     raise NotEnabled("LocalTask() started no waiter thread")
@@ -962,7 +1005,7 @@ class SimDriver:
     """One SimulatorTask: run thread, poll threads, callers of kill()/terminate()."""
 
     FIELDS = ("srs", "srr", "sos", "sor", "sfe", "srun", "spoll", "snpoll", "scode", "sunmet", "snotified", "skills", "sfile", "scall",
-              "swait", "sseen")
+              "swait", "sseen", "spst")
     STATE = {0: "submitted", 1: "executing", 3: "finished"}
 
     def __init__(self, scratch):
@@ -1076,6 +1119,7 @@ class SimDriver:
         d["scall"] = {"new": "ready", "k1": "ready"}.get(d["scall"], d["scall"])
         d["swait"] = {"new": "ready", "blocked": "evwait"}.get(d["swait"], d["swait"])
         d["lock"] = "sim-_run" if held else "-"
+        del d["spst"]           # a local variable of poll()
         if not waiting:
             d["snotified"] = None
         if d["srs"] == "none":
